@@ -105,7 +105,8 @@ klass("TaskScenario", has=("incLimits", "slotStartOffset", "_lastBookedResource"
 ghost("D", ["rs"], "rs.project.attributes['scheduleGranularity']")
 ghost("used", ["rs", "s"], "rs.slotSecondsUsed.get(s, 0.0)")
 ghost("usage", ["rs", "s"], "ite(s in rs.slotTaskUsage, seqsum(rs.slotTaskUsage[s], 1), 0.0)")
-ghost("LedgerAt", ["rs", "s"], "0 <= usage(rs, s) and usage(rs, s) <= used(rs, s) and used(rs, s) <= D(rs)")
+# per slot: the portions booked for tasks fit inside the seconds marked used, which fit inside the slot
+ghost("LedgerAt", ["rs", "s"], "usage(rs, s) <= used(rs, s) and 0 <= used(rs, s) and used(rs, s) <= D(rs)")
 ghost("Ledger", ["rs"], "forall(s, LedgerAt(rs, s))")
 
 # local time of slot start: project time + zone offset (zoneinfo trusted: A-tz)
@@ -127,3 +128,13 @@ ghost("WHOn", ["wh", "i", "tz"],
       "ite(not wh._custom_hours_set, IsWT(wh.project, i), ite(wh.project.attributes['start'] is None, False, "
       "LW(wh, i, tz) in wh._hours and len(wh._hours[LW(wh, i, tz)]) > 0 and Working(wh._hours, LW(wh, i, tz), LM(wh, i, tz))))",
       opaque=Bool)
+
+fields_of("TaskScenario", property=Ref("Task"), project=Ref("Project"), scenarioIdx=Int,
+          currentSlotIdx=Opt(Int), doneEffort=Real, doneDuration=Int, doneLength=Int, slotStartOffset=Real,
+          _lastBookedResource=Opt(Ref("Resource")), _lastBookedSlot=Opt(Int),
+          _selectedResources=Opt(List(Ref("Resource"))), isRunAway=Bool, scheduled=Bool, hasDurationSpec=Bool)
+attrs(effort=Opt(Real), start=Opt(DT), end=Opt(DT), scheduled=Opt(Bool), forward=Opt(Bool), milestone=Opt(Bool),
+      duration=Opt(Real), length=Opt(Real), priority=Opt(Int), pathcriticalness=Opt(Real), seqno=Opt(Int))
+# the resource scenario object of resource r in scenario sc
+ghost("RSof", ["r", "sc"], "some(some(r.data)[sc])")
+ghost("Eff", ["r", "sc"], "ite(attr(r, 'efficiency', sc) is None, 1.0, some(attr(r, 'efficiency', sc)))")
